@@ -59,6 +59,14 @@ fn stub_system_error(e: std::io::Error) -> SError {
     serr::serr_new("")
 }
 
+/// `sst::unpack_log_header` / `unpack_key_value_entry_prototk` render the inner error with
+/// `to_string()` (Display over the S-expression: recursive formatting); only is_err() matters.
+#[cfg(kani)]
+fn stub_unpack_err(e: prototk::SError) -> SError {
+    core::mem::forget(e);
+    serr::serr_new("")
+}
+
 fn opts() -> LogOptions {
     LogOptions { write_buffer: 0, read_buffer: 0, rollover_size: 1 << 30 }
 }
@@ -71,6 +79,16 @@ fn opts() -> LogOptions {
 /// varint class, where a variable is stored as the byte itself).
 pub const fn nvars(lk: usize, lv: usize, second: u8) -> usize {
     lk + 1 + lv + match second { 0 => 0, 1 => 2, _ => 3 }
+}
+
+/// Timestamps are concrete (5 and 6, the 1-byte varint class): a SYMBOLIC varint byte makes the
+/// reader's entry decoder branch into every varint length and the query does not finish
+/// (measured: >30 min vs. 3 min).  Keys and values stay symbolic.
+fn fix_timestamps(p: &mut [u8], lk: usize, lv: usize, second: u8) {
+    p[lk] = 5;
+    if second != 0 {
+        p[lk + 2 + lv] = 6;
+    }
 }
 
 fn run_writer(d: u64, lk: usize, lv: usize, second: u8, p: &[u8]) -> Result<Vec<u8>, SError> {
@@ -164,18 +182,19 @@ fn instantiate<const N: usize>(layout: &[u8; N], kind: &[u8; N], crcs: &[(usize,
 
 // ------------------------------------------------------------------ W: writer == template
 
-fn writer_half<const N: usize, const NV: usize>(t: &[u8], d: u64, lk: usize, lv: usize, second: u8, layout: &[u8; N], kind: &[u8; N], crcs: &[(usize, usize)]) {
+fn writer_half<const N: usize, const NV: usize>(t: &[u8], d: u64, lk: usize, lv: usize, second: u8, mk: fn(&[u8], fn(&[u8]) -> u32) -> [u8; N]) {
     let mut p = [0u8; NV];
     let mut i = 0;
     while i < NV {
         p[i] = t[i] & 0x7f;
         i += 1;
     }
+    fix_timestamps(&mut p, lk, lv, second);
     let out = run_writer(d, lk, lv, second, &p);
     assert!(out.is_ok(), "the writer accepts the batches");
     let out = out.unwrap();
     assert!(out.len() == N, "the image has the observed length for every payload");
-    let img = instantiate(layout, kind, crcs, &p, stub_crc);
+    let img = mk(&p, stub_crc);
     let mut i = 0;
     while i < N {
         assert!(out[i] == img[i], "the writer's output is the observed layout with the payload filled in");
@@ -188,17 +207,18 @@ fn writer_half<const N: usize, const NV: usize>(t: &[u8], d: u64, lk: usize, lv:
 // ------------------------------------------------------------------ R: reader on the template
 
 /// `cut`: number of image bytes the reader can see (N = intact).
-fn reader_half<const N: usize, const NV: usize>(t: &[u8], d: u64, lk: usize, lv: usize, second: u8, layout: &[u8; N], kind: &[u8; N], crcs: &[(usize, usize)], cut_mode: isize) {
+fn reader_half<const N: usize, const NV: usize>(t: &[u8], d: u64, lk: usize, lv: usize, second: u8, mk: fn(&[u8], fn(&[u8]) -> u32) -> [u8; N], cut_mode: isize) {
     let mut p = [0u8; NV];
     let mut i = 0;
     while i < NV {
         p[i] = t[i] & 0x7f;
         i += 1;
     }
+    fix_timestamps(&mut p, lk, lv, second);
     // cut: -1 intact, -2 symbolic, otherwise a concrete truncation length
     let cut = if cut_mode == -1 { N } else if cut_mode == -2 { t[NV] as usize } else { cut_mode as usize };
     vassume!(cut <= N);
-    let img = instantiate(layout, kind, crcs, &p, stub_crc);
+    let img = mk(&p, stub_crc);
     let r = ImgReader::<N> { img, len: cut, base: BLOCK - d, pos: BLOCK - d };
     let it = LogIterator::from_reader(opts(), r);
     assert!(it.is_ok(), "from_reader Ok");
@@ -270,10 +290,12 @@ fn reader_half<const N: usize, const NV: usize>(t: &[u8], d: u64, lk: usize, lv:
 // ------------------------------------------------------------------ shapes (name, D, LK, LV, second)
 
 macro_rules! log_shape {
-    ($w:ident, $r:ident, $c:ident, $d:expr, $lk:expr, $lv:expr, $second:expr, $len:ident, $layout:ident, $kind:ident, $crcs:ident) => {
+    ($w:ident, $r:ident, $c:ident, $d:expr, $lk:expr, $lv:expr, $second:expr, $len:ident, $img:ident) => {
         harness!(
             #[kani::stub(crc32c::crc32c, stub_crc)]
             #[kani::stub(crate::system_error, stub_system_error)]
+            #[kani::stub(crate::unpack_log_header, stub_unpack_err)]
+            #[kani::stub(crate::unpack_key_value_entry_prototk, stub_unpack_err)]
             #[kani::stub(crate::setsum::Setsum::put, stub_setsum_put)]
             #[kani::stub(crate::setsum::Setsum::del, stub_setsum_del)]
             #[kani::stub(alloc::fmt::format, serr::format)]
@@ -285,13 +307,15 @@ macro_rules! log_shape {
             #[kani::stub(handled::SError::with_debug_field, serr::serr_with_debug)]
             $w, nvars($lk, $lv, $second), |t| {
                 #[cfg(kani)]
-                writer_half::<$len, { nvars($lk, $lv, $second) }>(t, $d, $lk, $lv, $second, &$layout, &$kind, &$crcs);
+                writer_half::<$len, { nvars($lk, $lv, $second) }>(t, $d, $lk, $lv, $second, $img);
                 #[cfg(not(kani))]
                 native_shape_check($d, $lk, $lv, $second, t, -1);
             });
         harness!(
             #[kani::stub(crc32c::crc32c, stub_crc)]
             #[kani::stub(crate::system_error, stub_system_error)]
+            #[kani::stub(crate::unpack_log_header, stub_unpack_err)]
+            #[kani::stub(crate::unpack_key_value_entry_prototk, stub_unpack_err)]
             #[kani::stub(alloc::fmt::format, serr::format)]
             #[kani::stub(handled::SError::new, serr::serr_new)]
             #[kani::stub(handled::SError::with_code, serr::serr_with_str)]
@@ -301,13 +325,15 @@ macro_rules! log_shape {
             #[kani::stub(handled::SError::with_debug_field, serr::serr_with_debug)]
             $r, nvars($lk, $lv, $second) + 1, |t| {
                 #[cfg(kani)]
-                reader_half::<$len, { nvars($lk, $lv, $second) }>(t, $d, $lk, $lv, $second, &$layout, &$kind, &$crcs, -1);
+                reader_half::<$len, { nvars($lk, $lv, $second) }>(t, $d, $lk, $lv, $second, $img, -1);
                 #[cfg(not(kani))]
                 native_shape_check($d, $lk, $lv, $second, t, -1);
             });
         harness!(
             #[kani::stub(crc32c::crc32c, stub_crc)]
             #[kani::stub(crate::system_error, stub_system_error)]
+            #[kani::stub(crate::unpack_log_header, stub_unpack_err)]
+            #[kani::stub(crate::unpack_key_value_entry_prototk, stub_unpack_err)]
             #[kani::stub(alloc::fmt::format, serr::format)]
             #[kani::stub(handled::SError::new, serr::serr_new)]
             #[kani::stub(handled::SError::with_code, serr::serr_with_str)]
@@ -317,34 +343,36 @@ macro_rules! log_shape {
             #[kani::stub(handled::SError::with_debug_field, serr::serr_with_debug)]
             $c, nvars($lk, $lv, $second) + 1, |t| {
                 #[cfg(kani)]
-                reader_half::<$len, { nvars($lk, $lv, $second) }>(t, $d, $lk, $lv, $second, &$layout, &$kind, &$crcs, -2);
+                reader_half::<$len, { nvars($lk, $lv, $second) }>(t, $d, $lk, $lv, $second, $img, -2);
                 #[cfg(not(kani))]
                 native_shape_check($d, $lk, $lv, $second, t, -2);
             });
     };
 }
-log_shape!(w_whole_d40, r_whole_d40, c_whole_d40, 40, 1, 1, 0, T_WHOLE_D40_LEN, T_WHOLE_D40_LAYOUT, T_WHOLE_D40_KIND, T_WHOLE_D40_CRCS);
-log_shape!(w_two_d60, r_two_d60, c_two_d60, 60, 2, 3, 1, T_TWO_D60_LEN, T_TWO_D60_LAYOUT, T_TWO_D60_KIND, T_TWO_D60_CRCS);
-log_shape!(w_exact_d22, r_exact_d22, c_exact_d22, 22, 1, 1, 0, T_EXACT_D22_LEN, T_EXACT_D22_LAYOUT, T_EXACT_D22_KIND, T_EXACT_D22_CRCS);
-log_shape!(w_pad_d5, r_pad_d5, c_pad_d5, 5, 1, 1, 0, T_PAD_D5_LEN, T_PAD_D5_LAYOUT, T_PAD_D5_KIND, T_PAD_D5_CRCS);
-log_shape!(w_split_d20, r_split_d20, c_split_d20, 20, 1, 1, 0, T_SPLIT_D20_LEN, T_SPLIT_D20_LAYOUT, T_SPLIT_D20_KIND, T_SPLIT_D20_CRCS);
-log_shape!(w_pad_d1, r_pad_d1, c_pad_d1, 1, 1, 1, 0, T_PAD_D1_LEN, T_PAD_D1_LAYOUT, T_PAD_D1_KIND, T_PAD_D1_CRCS);
-log_shape!(w_bound_d0, r_bound_d0, c_bound_d0, 0, 1, 1, 0, T_BOUND_D0_LEN, T_BOUND_D0_LAYOUT, T_BOUND_D0_KIND, T_BOUND_D0_CRCS);
-log_shape!(w_split_d21, r_split_d21, c_split_d21, 21, 1, 1, 0, T_SPLIT_D21_LEN, T_SPLIT_D21_LAYOUT, T_SPLIT_D21_KIND, T_SPLIT_D21_CRCS);
-log_shape!(w_exact_d25, r_exact_d25, c_exact_d25, 25, 2, 3, 0, T_EXACT_D25_LEN, T_EXACT_D25_LAYOUT, T_EXACT_D25_KIND, T_EXACT_D25_CRCS);
-log_shape!(w_two_pad_d23, r_two_pad_d23, c_two_pad_d23, 23, 1, 1, 1, T_TWO_PAD_D23_LEN, T_TWO_PAD_D23_LAYOUT, T_TWO_PAD_D23_KIND, T_TWO_PAD_D23_CRCS);
-log_shape!(w_pad_d19, r_pad_d19, c_pad_d19, 19, 1, 1, 0, T_PAD_D19_LEN, T_PAD_D19_LAYOUT, T_PAD_D19_KIND, T_PAD_D19_CRCS);
-log_shape!(w_split_d26, r_split_d26, c_split_d26, 26, 3, 4, 0, T_SPLIT_D26_LEN, T_SPLIT_D26_LAYOUT, T_SPLIT_D26_KIND, T_SPLIT_D26_CRCS);
-log_shape!(w_batch2_d32, r_batch2_d32, c_batch2_d32, 32, 1, 1, 2, T_BATCH2_D32_LEN, T_BATCH2_D32_LAYOUT, T_BATCH2_D32_KIND, T_BATCH2_D32_CRCS);
-log_shape!(w_batch2_d60, r_batch2_d60, c_batch2_d60, 60, 1, 1, 2, T_BATCH2_D60_LEN, T_BATCH2_D60_LAYOUT, T_BATCH2_D60_KIND, T_BATCH2_D60_CRCS);
+log_shape!(w_whole_d40, r_whole_d40, c_whole_d40, 40, 1, 1, 0, T_WHOLE_D40_LEN, img_whole_d40);
+log_shape!(w_two_d60, r_two_d60, c_two_d60, 60, 2, 3, 1, T_TWO_D60_LEN, img_two_d60);
+log_shape!(w_exact_d22, r_exact_d22, c_exact_d22, 22, 1, 1, 0, T_EXACT_D22_LEN, img_exact_d22);
+log_shape!(w_pad_d5, r_pad_d5, c_pad_d5, 5, 1, 1, 0, T_PAD_D5_LEN, img_pad_d5);
+log_shape!(w_split_d20, r_split_d20, c_split_d20, 20, 1, 1, 0, T_SPLIT_D20_LEN, img_split_d20);
+log_shape!(w_pad_d1, r_pad_d1, c_pad_d1, 1, 1, 1, 0, T_PAD_D1_LEN, img_pad_d1);
+log_shape!(w_bound_d0, r_bound_d0, c_bound_d0, 0, 1, 1, 0, T_BOUND_D0_LEN, img_bound_d0);
+log_shape!(w_split_d21, r_split_d21, c_split_d21, 21, 1, 1, 0, T_SPLIT_D21_LEN, img_split_d21);
+log_shape!(w_exact_d25, r_exact_d25, c_exact_d25, 25, 2, 3, 0, T_EXACT_D25_LEN, img_exact_d25);
+log_shape!(w_two_pad_d23, r_two_pad_d23, c_two_pad_d23, 23, 1, 1, 1, T_TWO_PAD_D23_LEN, img_two_pad_d23);
+log_shape!(w_pad_d19, r_pad_d19, c_pad_d19, 19, 1, 1, 0, T_PAD_D19_LEN, img_pad_d19);
+log_shape!(w_split_d26, r_split_d26, c_split_d26, 26, 3, 4, 0, T_SPLIT_D26_LEN, img_split_d26);
+log_shape!(w_batch2_d32, r_batch2_d32, c_batch2_d32, 32, 1, 1, 2, T_BATCH2_D32_LEN, img_batch2_d32);
+log_shape!(w_batch2_d60, r_batch2_d60, c_batch2_d60, 60, 1, 1, 2, T_BATCH2_D60_LEN, img_batch2_d60);
 
 /// Concrete truncation lengths (no format knowledge: relative to the block boundary and the
 /// ends of the image): the image cut at `$cut` bytes.
 macro_rules! log_cut {
-    ($name:ident, $cut:expr, $d:expr, $lk:expr, $lv:expr, $second:expr, $len:ident, $layout:ident, $kind:ident, $crcs:ident) => {
+    ($name:ident, $cut:expr, $d:expr, $lk:expr, $lv:expr, $second:expr, $len:ident, $img:ident) => {
         harness!(
             #[kani::stub(crc32c::crc32c, stub_crc)]
             #[kani::stub(crate::system_error, stub_system_error)]
+            #[kani::stub(crate::unpack_log_header, stub_unpack_err)]
+            #[kani::stub(crate::unpack_key_value_entry_prototk, stub_unpack_err)]
             #[kani::stub(alloc::fmt::format, serr::format)]
             #[kani::stub(handled::SError::new, serr::serr_new)]
             #[kani::stub(handled::SError::with_code, serr::serr_with_str)]
@@ -354,7 +382,7 @@ macro_rules! log_cut {
             #[kani::stub(handled::SError::with_debug_field, serr::serr_with_debug)]
             $name, nvars($lk, $lv, $second) + 1, |t| {
                 #[cfg(kani)]
-                reader_half::<$len, { nvars($lk, $lv, $second) }>(t, $d, $lk, $lv, $second, &$layout, &$kind, &$crcs, $cut);
+                reader_half::<$len, { nvars($lk, $lv, $second) }>(t, $d, $lk, $lv, $second, $img, $cut);
                 #[cfg(not(kani))]
                 native_shape_check($d, $lk, $lv, $second, t, $cut);
             });
@@ -362,16 +390,16 @@ macro_rules! log_cut {
 }
 // the split batch of two entries: cut at the boundary, one byte either side, right after the
 // first byte, and one byte before the end
-log_cut!(k_batch2_d32_at_boundary, 32, 32, 1, 1, 2, T_BATCH2_D32_LEN, T_BATCH2_D32_LAYOUT, T_BATCH2_D32_KIND, T_BATCH2_D32_CRCS);
-log_cut!(k_batch2_d32_before_boundary, 31, 32, 1, 1, 2, T_BATCH2_D32_LEN, T_BATCH2_D32_LAYOUT, T_BATCH2_D32_KIND, T_BATCH2_D32_CRCS);
-log_cut!(k_batch2_d32_after_boundary, 33, 32, 1, 1, 2, T_BATCH2_D32_LEN, T_BATCH2_D32_LAYOUT, T_BATCH2_D32_KIND, T_BATCH2_D32_CRCS);
-log_cut!(k_batch2_d32_mid_padding, 26, 32, 1, 1, 2, T_BATCH2_D32_LEN, T_BATCH2_D32_LAYOUT, T_BATCH2_D32_KIND, T_BATCH2_D32_CRCS);
-log_cut!(k_whole_d40_last_byte, 21, 40, 1, 1, 0, T_WHOLE_D40_LEN, T_WHOLE_D40_LAYOUT, T_WHOLE_D40_KIND, T_WHOLE_D40_CRCS);
-log_cut!(k_whole_d40_first_byte, 1, 40, 1, 1, 0, T_WHOLE_D40_LEN, T_WHOLE_D40_LAYOUT, T_WHOLE_D40_KIND, T_WHOLE_D40_CRCS);
-log_cut!(k_whole_d40_empty, 0, 40, 1, 1, 0, T_WHOLE_D40_LEN, T_WHOLE_D40_LAYOUT, T_WHOLE_D40_KIND, T_WHOLE_D40_CRCS);
-log_cut!(k_split_d20_at_boundary, 20, 20, 1, 1, 0, T_SPLIT_D20_LEN, T_SPLIT_D20_LAYOUT, T_SPLIT_D20_KIND, T_SPLIT_D20_CRCS);
-log_cut!(k_two_d60_between, 25, 60, 2, 3, 1, T_TWO_D60_LEN, T_TWO_D60_LAYOUT, T_TWO_D60_KIND, T_TWO_D60_CRCS);
-log_cut!(k_two_d60_in_second, 30, 60, 2, 3, 1, T_TWO_D60_LEN, T_TWO_D60_LAYOUT, T_TWO_D60_KIND, T_TWO_D60_CRCS);
+log_cut!(k_batch2_d32_at_boundary, 32, 32, 1, 1, 2, T_BATCH2_D32_LEN, img_batch2_d32);
+log_cut!(k_batch2_d32_before_boundary, 31, 32, 1, 1, 2, T_BATCH2_D32_LEN, img_batch2_d32);
+log_cut!(k_batch2_d32_after_boundary, 33, 32, 1, 1, 2, T_BATCH2_D32_LEN, img_batch2_d32);
+log_cut!(k_batch2_d32_mid_padding, 26, 32, 1, 1, 2, T_BATCH2_D32_LEN, img_batch2_d32);
+log_cut!(k_whole_d40_last_byte, 21, 40, 1, 1, 0, T_WHOLE_D40_LEN, img_whole_d40);
+log_cut!(k_whole_d40_first_byte, 1, 40, 1, 1, 0, T_WHOLE_D40_LEN, img_whole_d40);
+log_cut!(k_whole_d40_empty, 0, 40, 1, 1, 0, T_WHOLE_D40_LEN, img_whole_d40);
+log_cut!(k_split_d20_at_boundary, 20, 20, 1, 1, 0, T_SPLIT_D20_LEN, img_split_d20);
+log_cut!(k_two_d60_between, 25, 60, 2, 3, 1, T_TWO_D60_LEN, img_two_d60);
+log_cut!(k_two_d60_in_second, 30, 60, 2, 3, 1, T_TWO_D60_LEN, img_two_d60);
 
 /// (name, D, LK, LV, second) -- the list the template derivation walks.
 pub const SHAPES: &[(&str, u64, usize, usize, u8)] = &[
@@ -493,6 +521,7 @@ fn verif_template() {
                 println!("pub const T_{}_LAYOUT: [u8; 1] = [0];", name);
                 println!("pub const T_{}_KIND: [u8; 1] = [0];", name);
                 println!("pub const T_{}_CRCS: [(usize, usize); 0] = [];", name);
+                println!("pub fn img_{}(_p: &[u8], _crc: fn(&[u8]) -> u32) -> [u8; 1] {{ [0] }}", name.to_lowercase());
                 continue;
             }
         };
@@ -500,6 +529,24 @@ fn verif_template() {
         println!("pub const T_{}_LAYOUT: [u8; {}] = {:?};", name, layout.len(), layout);
         println!("pub const T_{}_KIND: [u8; {}] = {:?};", name, kind.len(), kind);
         println!("pub const T_{}_CRCS: [(usize, usize); {}] = {:?};", name, crcs.len(), crcs);
+        // the same template as straight-line code (no loops for the solver to unroll)
+        let mut f = format!("pub fn img_{}(p: &[u8], crc: fn(&[u8]) -> u32) -> [u8; {}] {{ let mut a: [u8; {}] = {:?};", name.to_lowercase(), layout.len(), layout.len(),
+            layout.iter().zip(kind.iter()).map(|(b, k)| if *k == 0 { *b } else { 0 }).collect::<Vec<u8>>());
+        for (i, k) in kind.iter().enumerate() {
+            if *k != 0 && *k < 0xf0 {
+                f += &format!(" a[{}] = p[{}];", i, k - 1);
+            }
+        }
+        for (g, (a, b)) in crcs.iter().enumerate() {
+            f += &format!(" let c{} = crc(&a[{}..{}]).to_le_bytes();", g, a, b);
+            for (i, k) in kind.iter().enumerate() {
+                if *k >= 0xf0 && ((k & 0x0f) >> 2) as usize == g {
+                    f += &format!(" a[{}] = c{}[{}];", i, g, k & 3);
+                }
+            }
+        }
+        f += " a }";
+        println!("{}", f);
     }
     println!("TEMPLATE-END");
 }
@@ -511,7 +558,8 @@ fn verif_template() {
 #[cfg(not(kani))]
 fn native_shape_check(d: u64, lk: usize, lv: usize, second: u8, t: &[u8], cut_mode: isize) {
     let nv = nvars(lk, lv, second);
-    let p: Vec<u8> = (0..nv).map(|i| t[i] & 0x7f).collect();
+    let mut p: Vec<u8> = (0..nv).map(|i| t[i] & 0x7f).collect();
+    fix_timestamps(&mut p, lk, lv, second);
     let img = run_writer(d, lk, lv, second, &p).expect("the writer rejects the batches");
     let cut = if cut_mode == -1 { img.len() } else if cut_mode == -2 { t[nv] as usize } else { cut_mode as usize };
     if cut > img.len() {
